@@ -233,6 +233,36 @@ def rand_hist(rng, dom, nv, nsteps, vals=None, maxlive=6, pdc=0.34, pdestroy=0.2
         for h in lv: t.D(h)
     return t
 
+def assign_same_root_hist(rng, dom, nv):
+    """two live objects with the SAME diagram and DIFFERENT default values (a construction and its mirror image, a constant built two
+    ways, or an apply whose result equals an operand), copy-assignment between them, then the objects are destroyed in a random order with
+    further objects created in between: every reference the assignment takes or gives back must be accounted for"""
+    t = Hist(dom, nv)
+    vals = list(range(NVAL[dom]))
+    v, d = rng.sample(vals, 2)
+    r = rng.random()
+    if r < 0.4 and nv >= 1:
+        k = rng.randint(1, nv); pos = rng.randrange(k); bit = rng.choice("01")
+        a1 = "".join(bit if i == pos else "X" for i in range(k)); a2 = "".join(("1" if bit == "0" else "0") if i == pos else "X" for i in range(k))
+        h0 = t.C(a1, v, d); h1 = t.C(a2, d, v)
+    elif r < 0.7:
+        h0 = t.C(rand_asgn(rng, rng.randint(0, nv), 1.0), v, d); h1 = t.K(v)
+    else:
+        h0 = t.C(rand_asgn(rng, rng.randint(1, max(1, nv)), 0.3), v, d)
+        z = t.C("", rng.choice(vals), rng.choice(vals))
+        h1 = t.B(rng.randrange(NOPS[dom][1]), h0, z)
+    if rng.random() < 0.5: t.A(h0, h1)
+    else: t.A(h1, h0)
+    if rng.random() < 0.3: t.A(h0, h1)
+    if rng.random() < 0.4: t.Y(rng.choice(sorted(t.live)))
+    if rng.random() < 0.3: t.U(rng.randrange(NOPS[dom][0]), rng.choice(sorted(t.live)))
+    lv = sorted(t.live); rng.shuffle(lv)
+    for h in lv:
+        t.D(h)
+        if t.live and rng.random() < 0.3: t.Y(rng.choice(sorted(t.live)))
+    for h in sorted(t.live): t.D(h)
+    return t
+
 ARITY18 = {"C": 4, "K": 2, "Y": 2, "A": 2, "U": 3, "B": 4, "T": 5, "E": 4, "X": 4, "D": 1}
 def parse18(line):
     w = line.split()
